@@ -454,8 +454,11 @@ func (w *inotify) handleEvent(inEvent *unix.InotifyEvent, buf *[65536]byte, offs
 			return Event{}, true
 		}
 
+		// EINVAL means the kernel already dropped the watch, e.g. because
+		// the file was deleted right after it was renamed; there's nothing
+		// left to clean up and it's not an error the user can act on.
 		err := w.remove(watch.path)
-		if err != nil && !errors.Is(err, ErrNonExistentWatch) {
+		if err != nil && !errors.Is(err, ErrNonExistentWatch) && !errors.Is(err, unix.EINVAL) {
 			if !w.sendError(err) {
 				return Event{}, false
 			}
